@@ -91,10 +91,41 @@ def sourceModelOK (l : Line) : Bool :=
       && AR.Sprintf (bytesOf l "src.err.rawtext") == bytesOf l "src.err.sprintf"
   stateOK && errOK
 
+/-- what survives between two lines of the stream: the package-level state of pkg/op the regenerated
+    `AuthResponseFormPost` leaves behind (`none` = before the first call: `GenWire.formPostPkg`) -/
+structure FullSt where
+  pkg : Option (List (String × FP.PkgVal)) := none
+  deriving Inhabited
+
+def faultOf (l : Line) : FP.WFault :=
+  match str l "f.kind" with
+  | "err" => .err (nat l "f.k")
+  | "short" => .short (nat l "f.k")
+  | _ => .none
+
+/-- a step of a sequence (kind `seq`): the regenerated program of `AuthResponseFormPost` is run on the package-level state the
+    previous steps left behind, with this step's connection fault; what the user agent received must be the same bytes -/
+def stepSeq (st : FullSt) (l : Line) : FullSt × String :=
+  let i := parseInput l
+  let resp := valuesOf i.params
+  let req : FP.Req := { page := AR.render GenWire.formPostAutoescape GenWire.formPostTemplate i.uri resp,
+                        encFail := str l "f.kind" == "enc", fault := faultOf l }
+  let res := FP.run GenWire.formPostProgram req (st.pkg.getD GenWire.formPostPkg)
+  let kind := if res.failed || res.rw.dead then "partial" else "form"
+  let agree := kind == str l "obs" && res.rw.body == bytesOf l "o.body" && res.rw.status.getD 200 == 200
+    && FP.delivered req == res.rw.body && GenWire.formPostProgram.all FP.supported
+  ({ pkg := some res.pkg },
+   s!"case={str l "case"} class={classOf l}:{str l "f.kind"}{if bool l "f.hit" then "-hit" else ""} model={kind} observed={str l "obs"} monitor={showMon (monitorLine l)} hyp=1 agree={if agree then 1 else 0}")
+
 def step (l : Line) : String :=
   let m := model l
   let hyp := parseHypOK l
   let agree := observedOutcome l == some m && hyp && sourceModelOK l
   s!"case={str l "case"} class={classOf l} model={showOutcome m} observed={str l "obs"} monitor={showMon (monitorLine l)} hyp={if hyp then 1 else 0} agree={if agree then 1 else 0}"
 
+end Drv.C11
+
+namespace Drv.C11
+def stepSt (st : FullSt) (l : Line) : FullSt × String :=
+  if str l "kind" == "seq" then stepSeq st l else (st, step l)
 end Drv.C11
